@@ -63,7 +63,7 @@ from ser import Ids, Ser, Unsupported, ser, deser
 from props import c01 as K
 
 LEAN_MODULE = "Optyx.Props.C15"
-EXTRA_MODULES = ["Optyx.Props.PinsC15", "Optyx.Props.BuildTie", "Optyx.Props.GradIterTie", "Optyx.Props.SpineTie", "Optyx.Props.VarsIterTie"]   # transcription anchors (harness/source_pins.py)
+EXTRA_MODULES = ["Optyx.Props.PinsC15", "Optyx.Props.BuildTie", "Optyx.Props.GradIterTie", "Optyx.Props.SpineTie", "Optyx.Props.VarsIterTie", "Optyx.Props.CompileEntryTie"]   # transcription anchors (harness/source_pins.py)
 THEOREMS = [
     "Optyx.Props.C15.gradIter_eq",
     "Optyx.Props.C15.gradIter_tree",
@@ -98,6 +98,10 @@ THEOREMS = [
     "Optyx.Props.VarsIterTie.vstep_seen",
     "Optyx.Props.VarsIterTie.vstep_fresh",
     "Optyx.Props.VarsIterTie.varsIter_frame",
+    "Optyx.Props.CompileEntryTie.compileExpression_eq",
+    "Optyx.Props.CompileEntryTie.dictFn_eq",
+    "Optyx.Props.CompileEntryTie.param_run",
+    "Optyx.Props.CompileEntryTie.compiledExpression_value",
     "Optyx.Props.PinsC15.anchors",
 ]
 ASSUMPTIONS = [
